@@ -143,7 +143,9 @@ func runFunctions(w *World, specs *Specs, contracts map[string]*Contract, keys [
 	for _, key := range keys {
 		fo := &funcOutcome{Key: key}
 		fn := w.Funcs[key]
-		if strings.HasPrefix(key, "footprint:") {
+		if strings.HasPrefix(key, "grammar:") {
+			grammarOutcome(w, fo)
+		} else if strings.HasPrefix(key, "footprint:") {
 			footprintOutcome(w, fo)
 		} else if strings.HasPrefix(key, "table:") {
 			tableOutcome(w, fo, kfs)
